@@ -100,6 +100,59 @@ theorem iter_iprange_neg (a b : Addr) (step : Int) (ha : a.WF) (_hb : b.WF) (hv 
         rw [e2]
         omega
 
+/-- closed form of the number of yielded addresses for a positive step:
+    `(end - start) // step + 1` when `start ≤ end`, none otherwise -/
+theorem iter_iprange_count_pos (a b : Addr) (step : Int) (ha : a.WF) (hb : b.WF) (hv : a.ver = b.ver) (hs : 0 < step) :
+    ∃ l, iterIprange a b step = .ok l ∧
+      l.length = if a.val ≤ b.val then (((b.val : Int) - a.val) / step).toNat + 1 else 0 := by
+  obtain ⟨n, hr, hall, hnext⟩ := iter_iprange_pos a b step ha hb hv hs
+  refine ⟨_, hr, ?_⟩
+  rw [List.length_map, List.length_range]
+  by_cases hle : a.val ≤ b.val
+  · simp only [hle, if_true]
+    cases n with
+    | zero => simp at hnext; omega
+    | succ m =>
+      have h1 := hall m (by omega)
+      have e2 : step * ((m + 1 : Nat) : Int) = step * (m : Int) + step := by
+        rw [Int.natCast_add, Int.mul_add]; simp
+      rw [e2] at hnext
+      have hq1 : (m : Int) ≤ ((b.val : Int) - a.val) / step := by
+        rw [Int.le_ediv_iff_mul_le hs, Int.mul_comm]; omega
+      have hq2 : ((b.val : Int) - a.val) / step < (m : Int) + 1 := by
+        rw [Int.ediv_lt_iff_lt_mul hs, Int.add_mul, Int.mul_comm]; omega
+      omega
+  · simp only [hle, if_false]
+    cases n with
+    | zero => rfl
+    | succ m => have := hall 0 (by omega); simp at this; omega
+
+/-- the generator never leaves the closed interval between `start` and `end` (in particular it
+    never constructs an address below 0 or above `max_int`), and keeps the version -/
+theorem iter_iprange_in_bounds (a b : Addr) (step : Int) (ha : a.WF) (hb : b.WF) (hv : a.ver = b.ver)
+    (hs : step ≠ 0) :
+    ∃ l, iterIprange a b step = .ok l ∧ ∀ y ∈ l, y.ver = a.ver ∧
+      ((a.val ≤ y.val ∧ y.val ≤ b.val) ∨ (b.val ≤ y.val ∧ y.val ≤ a.val)) := by
+  by_cases hp : 0 < step
+  · obtain ⟨n, hr, hall, _⟩ := iter_iprange_pos a b step ha hb hv hp
+    refine ⟨_, hr, ?_⟩
+    intro y hy
+    simp only [List.mem_map, List.mem_range] at hy
+    obtain ⟨i, hi, rfl⟩ := hy
+    have h1 := hall i hi
+    have hnn : 0 ≤ step * (i : Int) := Int.mul_nonneg (by omega) (by omega)
+    refine ⟨rfl, Or.inl ⟨?_, ?_⟩⟩ <;> simp only <;> omega
+  · have hn : step < 0 := by omega
+    obtain ⟨n, hr, hall, _⟩ := iter_iprange_neg a b step ha hb hv hn
+    refine ⟨_, hr, ?_⟩
+    intro y hy
+    simp only [List.mem_map, List.mem_range] at hy
+    obtain ⟨i, hi, rfl⟩ := hy
+    have h1 := hall i hi
+    have hnn : 0 ≤ (-step) * (i : Int) := Int.mul_nonneg (by omega) (by omega)
+    rw [Int.neg_mul] at hnn
+    refine ⟨rfl, Or.inr ⟨?_, ?_⟩⟩ <;> simp only <;> omega
+
 /-- exactly these calls are rejected: different versions (TypeError), else a zero step (ValueError) -/
 theorem iter_iprange_errors (a b : Addr) (step : Int) :
     (a.ver ≠ b.ver → iterIprange a b step = .error .type_) ∧
@@ -304,6 +357,55 @@ theorem slice_length (x : Ranged) (h : x.WF) (h4 : x.ver = 4) (a b c : Option In
     rw [hfm, List.getElem?_map, List.getElem?_eq_getElem hk]
     simp only [Option.map_some]
     rw [getElem?_listOf x _ (by omega)]
+
+/-! #### sanity of the spec-level slice -/
+
+/-- the spec-level slice means what Python means: `l[a:b]` for `0 ≤ a ≤ b ≤ len(l)` is
+    `l` without its first `a` elements, cut to `b - a` elements -/
+theorem pySlice_start_stop {α : Type} (l : List α) (a b : Nat) (hab : a ≤ b) (hb : b ≤ l.length) :
+    pySlice l (some a) (some b) none = .ok ((l.drop a).take (b - a)) := by
+  unfold pySlice Py.sliceIndices
+  have h1 : ¬ ((a : Int) < 0) := by omega
+  have h2 : ¬ ((b : Int) < 0) := by omega
+  have h3 : ¬ ((a : Int) > (l.length : Int)) := by omega
+  have h4 : ¬ ((b : Int) > (l.length : Int)) := by omega
+  simp only [Option.getD_none, show ¬ ((1 : Int) = 0) by decide, if_false, show ¬ ((1 : Int) < 0) by decide, h1, h2, h3, h4]
+  congr 1
+  unfold Py.pyRange
+  simp only [show (1 : Int) > 0 by decide, if_true]
+  by_cases hge : (a : Int) ≥ (b : Int)
+  · have : b - a = 0 := by omega
+    simp [hge, this]
+  · simp only [hge, if_false]
+    have : ((b : Int) - a + 1 - 1) / 1 = ((b - a : Nat) : Int) := by rw [Int.ediv_one]; omega
+    rw [this, Int.toNat_natCast]
+    exact fm_drop_take l a (b - a)
+
+/-- … and `l[::-1]` is the reversed list -/
+theorem pySlice_reverse {α : Type} (l : List α) : pySlice l none none (some (-1)) = .ok l.reverse := by
+  unfold pySlice Py.sliceIndices
+  simp only [Option.getD_some, show ¬ ((-1 : Int) = 0) by decide, if_false, show ((-1 : Int) < 0) by decide, if_true]
+  congr 1
+  unfold Py.pyRange
+  simp only [show ¬ ((-1 : Int) > 0) by decide, if_false, show ((-1 : Int) < 0) by decide, if_true]
+  by_cases hle : (l.length : Int) - 1 ≤ -1
+  · have : l.length = 0 := by omega
+    have hl : l = [] := List.eq_nil_of_length_eq_zero this
+    simp [hl]
+  · simp only [hle, if_false]
+    have : ((l.length : Int) - 1 - -1 + - -1 - 1) / - -1 = (l.length : Int) := by
+      rw [show (- -1 : Int) = 1 by decide, Int.ediv_one]; omega
+    rw [this, Int.toNat_natCast]
+    exact fm_reverse l
+
+/-- hence `x[a:b]` (IPv4, `0 ≤ a ≤ b ≤ size`) is the contiguous run of addresses
+    `first+a … first+b-1`, and `x[::-1]` is the list of addresses descending -/
+theorem slice_start_stop_reverse (x : Ranged) (h : x.WF) (h4 : x.ver = 4) (a b : Nat) (hab : a ≤ b)
+    (hb : b ≤ (listOf x).length) :
+    getItemSlice x (some a) (some b) none = .ok (((listOf x).drop a).take (b - a)) ∧
+    getItemSlice x none none (some (-1)) = .ok (listOf x).reverse := by
+  rw [slice_spec x h h4, slice_spec x h h4]
+  exact ⟨pySlice_start_stop _ a b hab hb, pySlice_reverse _⟩
 
 /-- a zero step is rejected with ValueError, as `list(x)[a:b:0]` is -/
 theorem slice_zero_step (x : Ranged) (h4 : x.ver ≠ 6) (a b : Option Int) :
